@@ -13,7 +13,7 @@ Cases == JsonDeserialize(IOEnv.CASES)
 \*  sending side but stays alive leaves the writer blocked until the SIGINT rung)
 RungOf2(env, death) == CASE env \in {"idle", "receive", "thread", "cbdropped", "cbraises", "cbraises_dropped", "nondaemon", "atexit_hang"} -> "eof"
                  [] env = "sending" -> (IF death = "close" THEN "sigint" ELSE "eof")
-                 [] env \in {"busy", "sleep", "flooded", "sleep_and_sending", "sleep_and_short"} -> "sigint"
+                 [] env \in {"busy", "sleep", "flooded", "sleep_and_sending", "sleep_and_short", "func_kwargs"} -> "sigint"
                  [] OTHER -> "hardexit"
 Own(env, death) == CASE RungOf2(env, death) = "eof" -> 0 [] RungOf2(env, death) = "sigint" -> 5000 [] OTHER -> 15000
 \* a worker reached via= another worker only sees EOF when that forwarder is gone; the forwarder's body (blocked reading
